@@ -619,6 +619,108 @@ def verify_class(which, F, log, x, eqr, num):
     return None, claims
 
 
+# ====================================================================== command line -> program attributes
+CLI_PROGS = {"assemble": "mchap.application.assemble", "call": "mchap.application.call", "call-exact": "mchap.application.call_exact",
+             "call-pedigree": "mchap.application.call_pedigree"}
+# option -> (values on the command line, attribute of the program object, expected value of that attribute)
+_MCMC = [(["--mcmc-chains", "3"], "mcmc_chains", 3), (["--mcmc-steps", "17"], "mcmc_steps", 17), (["--mcmc-burn", "5"], "mcmc_burn", 5),
+         (["--mcmc-chain-incongruence-threshold", "0.55"], "mcmc_incongruence_threshold", 0.55)]
+CLI_ATTRS = {
+    "assemble": _MCMC + [(["--mcmc-fix-homozygous", "0.875"], "mcmc_fix_homozygous", 0.875), (["--mcmc-recombination-step-probability", "0.25"], "mcmc_recombination_step_probability", 0.25),
+                         (["--mcmc-partial-dosage-step-probability", "0.375"], "mcmc_partial_dosage_step_probability", 0.375), (["--mcmc-dosage-step-probability", "0.625"], "mcmc_dosage_step_probability", 0.625),
+                         (["--mcmc-llk-cache-threshold", "77"], "mcmc_llk_cache_threshold", 77), (["--haplotype-posterior-threshold", "0.3125"], "haplotype_posterior_threshold", 0.3125),
+                         (["--inbreeding", "0.125"], "sample_inbreeding", "each:0.125"), (["--mcmc-temperatures", "0.5", "0.25"], "sample_mcmc_temperatures", "each:[0.25, 0.5, 1.0]")],
+    "call": _MCMC + [(["--inbreeding", "0.125"], "sample_inbreeding", "each:0.125"), (["--prior-frequencies", "AFP"], "prior_frequencies_tag", "AFP"),
+                     (["--filter-input-haplotypes", "AFP>=0.1"], "filter_input_haplotypes", "AFP>=0.1")],
+    "call-exact": [(["--inbreeding", "0.125"], "sample_inbreeding", "each:0.125"), (["--prior-frequencies", "AFP"], "prior_frequencies_tag", "AFP"),
+                   (["--filter-input-haplotypes", "AFP>=0.1"], "filter_input_haplotypes", "AFP>=0.1")],
+    "call-pedigree": _MCMC + [(["--prior-frequencies", "AFP"], "prior_frequencies_tag", "AFP"), (["--gamete-error", "0.0625"], "gamete_error", "each:(0.0625, 0.0625)"),
+                              (["--gamete-ibd", "0.03125"], "gamete_ibd", "each:(0.03125, 0.03125)")],
+}
+
+
+def cli_attrs_drive(load, progname, choice):
+    """program.cli(<argv>) on the repository's test files with every numeric / string option given a distinctive value (or all
+    left out: the parser's defaults are not compared with anything -- no property fixes them); returns (problems, command).  The seed is drawn from {0, 29}: 0 is a legal seed."""
+    import contextlib
+    import io
+    import os
+
+    data = os.path.join(E.repo_root(), "mchap", "tests", "test_io", "data")
+    mod = load(CLI_PROGS[progname])
+    given = int(choice("given", 0, 1))
+    seed = [None, 0, 29][int(choice("seed", 0, 2))] if progname != "call-exact" else None
+    ploidy = [2, 4][int(choice("ploidy", 0, 1))]
+    cmd = ["mchap", progname, "--bam"] + [os.path.join(data, "simple.sample%d.bam" % i) for i in (1, 2, 3)] + ["--ploidy", str(ploidy)]
+    if progname == "assemble":
+        cmd += ["--targets", os.path.join(data, "simple.bed.gz"), "--variants", os.path.join(data, "simple.vcf.gz"), "--reference", os.path.join(data, "simple.fasta")]
+    else:
+        cmd += ["--haplotypes", os.path.join(data, "simple.output.assemble.vcf")]
+    if progname == "call-pedigree":
+        cmd += ["--sample-parents", os.path.join(data, "simple.pedigree.132.txt")]
+    if seed is not None:
+        cmd += ["--mcmc-seed", str(seed)]
+    if given:
+        for vals, _, _ in CLI_ATTRS[progname]:
+            cmd += vals
+    with contextlib.redirect_stdout(io.StringIO()):
+        prog = mod.program.cli(cmd)
+    bad = []
+    for vals, attr, want in (CLI_ATTRS[progname] if given else []):
+        got = getattr(prog, attr)
+        if isinstance(want, str) and want.startswith("each:"):
+            w = want[5:]
+            vs = list(got.values()) if isinstance(got, dict) else list(got)
+            if not vs or any(repr(_plainv(x)) != w for x in vs):
+                bad.append("%s gives %s=%s (every sample should have %s)" % (" ".join(vals), attr, str(got)[:80], w))
+        elif _plainv(got) != want or type(_plainv(got)) is not type(want):
+            bad.append("%s gives %s=%r" % (" ".join(vals), attr, got))
+    if seed is not None and (prog.random_seed != seed or isinstance(prog.random_seed, bool)):
+        bad.append("--mcmc-seed %d gives random_seed=%r" % (seed, prog.random_seed))
+    sp = list(prog.sample_ploidy.values()) if isinstance(prog.sample_ploidy, dict) else list(prog.sample_ploidy)
+    if not sp or any(int(x) != ploidy for x in sp):
+        bad.append("--ploidy %d gives sample_ploidy=%s" % (ploidy, str(prog.sample_ploidy)[:80]))
+    return sorted(set(bad)), cmd
+
+
+def _plainv(x):
+    if isinstance(x, rnp.generic):
+        return x.item()
+    if isinstance(x, rnp.ndarray):
+        return x.tolist()
+    if isinstance(x, (list, tuple)):
+        return type(x)(_plainv(v) for v in x)
+    return x
+
+
+def run_cli_attrs(c, col):
+    if E.load is _ENGINE_LOAD:
+        E.reset_modules()
+    E.cfg.concrete_ints = True
+    E.cfg.concrete_floats = True
+    site = "mchap.application.%s.program.cli" % c["prog"].replace("-", "_")
+    try:
+        def body(ctx):
+            return cli_attrs_drive(E.load, c["prog"], lambda name, lo, hi: int(E.SymInt(E.fresh_int(ctx, name, lo, hi))))
+
+        first = True
+        for pr in E.explore(body, stats=col.stats):
+            if pr.exc is not None:
+                col.fail(site, "exception", shape=dict(prog=c["prog"]), witness=dict(exc=repr(pr.exc)), desc="%s raised %r" % (c["prog"], pr.exc), model=E.model_dict(E.prove(pr.ctx, False).model))
+                continue
+            col.path()
+            if first:
+                col.reachable(pr.ctx)
+                first = False
+            bad, cmd = pr.value
+            if bad:
+                col.fail(site, "cli-attribute", shape=dict(prog=c["prog"]), witness=dict(prog=c["prog"], problems=bad), desc="; ".join(bad)[:300], model=E.model_dict(E.prove(pr.ctx, False).model))
+            else:
+                col.ok("every option of the command line is the program object's attribute of the same meaning (%s; settings solver-enumerated)" % c["prog"])
+    finally:
+        E.cfg.concrete_floats = False
+
+
 # ====================================================================== a model object fitted twice
 
 
